@@ -1,15 +1,29 @@
 #!/usr/bin/env python3
 """gen_tables.py — the translator half of the tie between /repo and the Coq development.
 
-Reads the *current working tree* of the repository and writes coq/Tables.v: name tables,
-character-class predicates, constants, macro index lists and shape pins.  It is a small
-pattern-directed translator (regular expressions over the Rust source), not a Rust front end:
-it understands exactly the shapes listed below and raises TranslatorError on anything else, which
-the check driver reports as a broken tie ("translator no longer applies").
+Writes coq/Tables.v (name tables, character-class predicates, constants, macro index lists, shape
+pins) from the *current working tree* of the repository, SECTION BY SECTION, each by two routes:
 
-Usage: gen_tables.py <repo> <out.v>      (exit 0: written; exit 3: a shape no longer matches)
+  (a) static   a small pattern-directed reading of the Rust source (regular expressions; it sees the
+               source itself, e.g. a newly added enum variant or table row in whatever position);
+  (b) probe    the behaviour of the compiled implementation, observed through its public API by the
+               correspondence harness (tools/probe.py + harness/src/probecases.rs), exhaustively
+               where the domain is finite (all 256 bytes, every char, every enum variant).
+
+Per section: static alone => `static`; probe alone (the source no longer has a shape the static
+reader knows) => `probe`; both and they agree => `static+probe-agree`; both and they DISAGREE => the
+section is reported as failed (`disagree`: the static reading cannot be trusted); neither => the
+section is reported as failed and the last good value (tools/tables_fallback.json, generated from
+the unchanged repository) is emitted, marked FALLBACK, so that everything that does not depend on
+the section still builds.  A failed section breaks only the properties whose Coq cone or executable
+model mentions one of its identifiers (tools/tabledeps.py, applied in vlib.finish).
+
+Usage: gen_tables.py <repo> <out.v> [--probe <probe.json>] [--fallback <json>] [--write-fallback <json>]
+Prints one JSON line: sha256, per-section provenance, failed sections with reasons.  Exit 0 unless
+nothing at all could be written (exit 3).
 """
 import re
+import os
 import sys
 import json
 import hashlib
@@ -19,9 +33,8 @@ class TranslatorError(Exception):
     pass
 
 
-def read(repo, rel):
-    with open(f"{repo}/{rel}", encoding="utf-8") as f:
-        return f.read()
+HERE = os.path.dirname(os.path.abspath(__file__))
+DEFAULT_FALLBACK = os.path.join(HERE, "tables_fallback.json")
 
 
 def strip_comments(src):
@@ -35,6 +48,37 @@ def strip_comments(src):
     return "\n".join(out)
 
 
+class Src:
+    """Lazy, comment-stripped view of the repository's source files."""
+
+    def __init__(self, repo):
+        self.repo = repo
+        self._c = {}
+
+    def __call__(self, rel):
+        if rel not in self._c:
+            try:
+                with open(f"{self.repo}/{rel}", encoding="utf-8") as f:
+                    self._c[rel] = strip_comments(f.read())
+            except OSError as e:
+                raise TranslatorError(f"cannot read {rel}: {e}")
+        return self._c[rel]
+
+
+TAG_RS = "mpd_client/src/tag.rs"
+CLIENT_MOD_RS = "mpd_client/src/client/mod.rs"
+CLIENT_CONN_RS = "mpd_client/src/client/connection.rs"
+PARSER_RS = "mpd_protocol/src/parser.rs"
+COMMAND_RS = "mpd_protocol/src/command.rs"
+CONNECTION_RS = "mpd_protocol/src/connection.rs"
+FILTER_RS = "mpd_client/src/filter.rs"
+SONG_RS = "mpd_client/src/responses/song.rs"
+RESPONSES_RS = "mpd_client/src/responses/mod.rs"
+DEFINITIONS_RS = "mpd_client/src/commands/definitions.rs"
+COMMAND_LIST_RS = "mpd_client/src/commands/command_list.rs"
+FRAME_RS = "mpd_protocol/src/response/frame.rs"
+
+
 def body_of(src, header_re, what):
     """Return the text of the brace-delimited block that follows the first match of header_re."""
     m = re.search(header_re, src)
@@ -44,7 +88,6 @@ def body_of(src, header_re, what):
     depth = 0
     j = i
     in_str = False
-    in_chr = False
     while j < len(src):
         c = src[j]
         if in_str:
@@ -97,54 +140,136 @@ def coq_bytes(bs):
     return "[" + "; ".join(str(x) for x in bs) + "]"
 
 
+def hx(b):
+    return bytes(b).hex()
+
+
+def unhx(s):
+    return bytes.fromhex(s)
+
+
 def norm(s):
     return re.sub(r"\s+", "", s)
 
 
 # ---------------------------------------------------------------- predicates
 
+def _is_alpha(c):
+    return 65 <= c <= 90 or 97 <= c <= 122
+
+
+def _is_digit(c):
+    return 48 <= c <= 57
+
+
+def _in_range(lo, hi, c):
+    return lo <= c <= hi
+
+
+def _one_byte(lit, what):
+    bs = rust_str(lit)
+    if len(bs) != 1:
+        raise TranslatorError(f"{what}: non-byte char literal {lit!r}")
+    return bs[0]
+
+
 def translate_pred(expr, var, what):
     """Translate a disjunction/conjunction of character tests on `var` into a Coq `N -> bool` body
-    over the variable c."""
+    over the variable c.  Returns {"coq": text, "accept": [bytes on which it is true]}."""
     e = expr.strip()
-    toks = []
+    coq = []
+    py = []
     i = 0
+    chr_lit = r"b?'((?:\\.|[^\\'])+)'"
     pat = [
-        (rf"is_alphabetic\(\s*\*?{var}\s*\)", "(is_alpha c)"),
-        (rf"\*?{var}\.is_ascii_alphabetic\(\)", "(is_alpha c)"),
-        (rf"\*?{var}\.is_ascii_digit\(\)", "(is_digit c)"),
-        (rf"\*?{var}\.is_ascii_alphanumeric\(\)", "(is_alpha c || is_digit c)"),
-        (rf"is_digit\(\s*\*?{var}\s*\)", "(is_digit c)"),
-        (rf"is_alphanumeric\(\s*\*?{var}\s*\)", "(is_alpha c || is_digit c)"),
-        (rf"\*?{var}\s*==\s*b?'((?:\\.|[^\\'])+)'", None),
-        (rf"\*?{var}\s*!=\s*b?'((?:\\.|[^\\'])+)'", "NE"),
-        (r"\|\|", " || "),
-        (r"&&", " && "),
-        (r"!\(", "negb ("),
-        (r"\(", "("),
-        (r"\)", ")"),
-        (r"\s+", ""),
+        (rf"is_alphabetic\(\s*\*?{var}\s*\)", "(is_alpha c)", "_is_alpha(c)"),
+        (rf"\*?{var}\.is_ascii_alphabetic\(\)", "(is_alpha c)", "_is_alpha(c)"),
+        (rf"\*?{var}\.is_ascii_digit\(\)", "(is_digit c)", "_is_digit(c)"),
+        (rf"\*?{var}\.is_ascii_alphanumeric\(\)", "(is_alpha c || is_digit c)", "(_is_alpha(c) or _is_digit(c))"),
+        (rf"is_digit\(\s*\*?{var}\s*\)", "(is_digit c)", "_is_digit(c)"),
+        (rf"is_alphanumeric\(\s*\*?{var}\s*\)", "(is_alpha c || is_digit c)", "(_is_alpha(c) or _is_digit(c))"),
+        (rf"matches!\(\s*\*?{var}\s*,((?:\s*{chr_lit}(?:\s*\.\.=\s*{chr_lit})?\s*\|?)+)\)", "MATCHES", None),
+        (rf"\*?{var}\s*==\s*{chr_lit}", "EQ", None),
+        (rf"\*?{var}\s*!=\s*{chr_lit}", "NE", None),
+        (r"\|\|", " || ", " or "),
+        (r"&&", " && ", " and "),
+        (r"!\(", "negb (", "not ("),
+        (r"\(", "(", "("),
+        (r"\)", ")", ")"),
+        (r"\s+", "", ""),
     ]
     while i < len(e):
-        for rx, rep in pat:
+        for rx, rep, pyrep in pat:
             m = re.match(rx, e[i:])
             if m:
-                if rep is None or rep == "NE":
-                    bs = rust_str(m.group(1))
-                    if len(bs) != 1:
-                        raise TranslatorError(f"{what}: non-byte char literal {m.group(1)!r}")
-                    t = f"(c =? {bs[0]})"
-                    toks.append(t if rep is None else f"(negb {t})")
+                if rep in ("EQ", "NE"):
+                    v = _one_byte(m.group(1), what)
+                    t = f"(c =? {v})"
+                    coq.append(t if rep == "EQ" else f"(negb {t})")
+                    py.append(f"(c == {v})" if rep == "EQ" else f"(c != {v})")
+                elif rep == "MATCHES":
+                    alts_c, alts_p = [], []
+                    for am in re.finditer(rf"{chr_lit}(?:\s*\.\.=\s*{chr_lit})?", m.group(1)):
+                        lo = _one_byte(am.group(1), what)
+                        if am.group(2) is not None:
+                            hi = _one_byte(am.group(2), what)
+                            alts_c.append(f"(in_range {lo} {hi} c)")
+                            alts_p.append(f"_in_range({lo}, {hi}, c)")
+                        else:
+                            alts_c.append(f"(c =? {lo})")
+                            alts_p.append(f"(c == {lo})")
+                    coq.append("(" + " || ".join(alts_c) + ")")
+                    py.append("(" + " or ".join(alts_p) + ")")
                 else:
-                    toks.append(rep)
+                    coq.append(rep)
+                    py.append(pyrep)
                 i += m.end()
                 break
         else:
             raise TranslatorError(f"{what}: cannot translate predicate near {e[i:i+40]!r}")
-    return "".join(toks)
+    pyexpr = "".join(py)
+    try:
+        code = compile(pyexpr, "<pred>", "eval")
+        env = {"_is_alpha": _is_alpha, "_is_digit": _is_digit, "_in_range": _in_range, "__builtins__": {}}
+        accept = [c for c in range(256) if eval(code, dict(env, c=c))]
+    except Exception as ex:  # malformed nesting
+        raise TranslatorError(f"{what}: predicate does not evaluate ({ex})")
+    return {"coq": "".join(coq), "accept": accept}
 
 
-# ---------------------------------------------------------------- tables
+def canonical_pred(accept):
+    """A Coq `N -> bool` body (over c) for a set of bytes, built from the primitives of Bytes.v."""
+    s = sorted(set(accept))
+    if not s:
+        return "false"
+    parts = []
+    rest = set(s)
+    if set(range(65, 91)) | set(range(97, 123)) <= rest:
+        parts.append("(is_alpha c)")
+        rest -= set(range(65, 91)) | set(range(97, 123))
+    if set(range(48, 58)) <= rest:
+        parts.append("(is_digit c)")
+        rest -= set(range(48, 58))
+    runs = []
+    for c in sorted(rest):
+        if runs and runs[-1][1] == c - 1:
+            runs[-1][1] = c
+        else:
+            runs.append([c, c])
+    for lo, hi in runs:
+        if lo == hi:
+            parts.append(f"(c =? {lo})")
+        elif lo == 0:
+            parts.append(f"(c <=? {hi})")
+        elif hi - lo == 1:
+            parts.append(f"(c =? {lo})")
+            parts.append(f"(c =? {hi})")
+        else:
+            parts.append(f"(in_range {lo} {hi} c)")
+    return " || ".join(parts)
+
+
+# ---------------------------------------------------------------- match tables
 
 def match_arms(body, what):
     """`Enum::Variant => "lit",` arms; returns [(variant, bytes)]; other arms are returned raw."""
@@ -171,24 +296,150 @@ def lit_to_variant_arms(body, what):
     return arms
 
 
-def gen(repo):
-    out = []
-    pins = {}
-    emit = out.append
-    emit("(* Tables.v — GENERATED by tools/gen_tables.py from the repository's current working tree.")
-    emit("   Do not edit: it is rewritten on every run of every check. *)")
-    emit("From MPD Require Import Bytes.")
-    emit("Open Scope N_scope.")
-    emit("")
-
-    # ------------------------------------------------------------ tag.rs
-    tag_src = strip_comments(read(repo, "mpd_client/src/tag.rs"))
-    enum_body = body_of(tag_src, r"pub enum Tag\s*\{", "Tag enum")
-    variants = re.findall(r"^\s*(\w+)\s*(\([^)]*\))?,", enum_body, re.M)
+def enum_variants(src, header, what):
+    body = body_of(src, header, what)
+    variants = re.findall(r"^\s*(\w+)\s*(\([^)]*\))?,", body, re.M)
     named = [v for v, p in variants if not p]
     others = [v for v, p in variants if p]
+    return named, others
+
+
+# ================================================================= sections
+#
+# A section is a group of Tables.v identifiers obtained together.  Its value is a small JSON-able
+# object; `static` reads it from the source, the probe (tools/probe.py) reports it under the same
+# name in the same format, `sem` maps a value to what must be EQUAL between two readings (order of
+# rows that cannot matter is forgotten there), `render` writes the Coq text.
+
+SECTIONS = []
+
+
+class Section:
+    def __init__(self, name, ids, static, render, sem=None, kind="value", needs=(), probe_note="", exact=None, decided_by=(),
+                 static_may_see_more=False):
+        self.name = name
+        # the harness enumerates enum variants, predefined commands and tuple arities BY HAND: something ADDED to the
+        # source is seen by the static reading only.  For such sections the two readings agree when everything the
+        # probe reports is in the static reading with the same meaning (the additions are then judged by the lemmas
+        # and the oracle as before, not by the cross-check).
+        self.static_may_see_more = static_may_see_more
+        self.decided_by = tuple(decided_by)   # tripwires: the properties whose correspondence + oracle decide the behaviour on every run
+        self.ids = ids
+        self.static = static
+        self.render = render
+        self.sem = sem or (lambda v, got: v)
+        # sem: what two readings must agree on (as fine as the probe can see); exact: everything of a static reading
+        # that the Coq text depends on apart from spelling (default: the same).  A reading whose exact meaning equals
+        # the recorded reference value is rendered with the reference text, so that a refactoring that changes no
+        # meaning leaves Tables.v byte-identical (no rebuild, no proof sees a different syntactic form).
+        self.exact = exact or self.sem
+        # value | pin (boolean shape reading, overridden by a probe over a complete universe) |
+        # flag (static-only boolean) | tripwire (static-only shape reading of a renderer whose domain has no finite
+        # complete universe: NO Coq identifier, nothing depends on it; when it trips, the evidence of the
+        # properties in decided_by says so and their correspondence run + oracle decide)
+        self.kind = kind
+        self.needs = needs
+        self.probe_note = probe_note
+        SECTIONS.append(self)
+
+
+def need(got, name):
+    if name not in got:
+        raise TranslatorError(f"depends on section {name}, which could not be obtained")
+    return got[name]
+
+
+# ---------------------------------------------------------------- generic renderers / sems
+
+def render_pred(ident):
+    def r(v, got):
+        body = v.get("coq") or canonical_pred(v["accept"])
+        return f"Definition {ident} (c : N) : bool := {body}."
+    return r
+
+
+def sem_pred(v, got):
+    return sorted(set(v["accept"]))
+
+
+def render_bytes_const(ident):
+    return lambda v, got: f"Definition {ident} : bytes := {coq_bytes(unhx(v['bytes']))}."
+
+
+def render_n_const(ident):
+    return lambda v, got: f"Definition {ident} : N := {v['n']}."
+
+
+def render_bool(ident):
+    return lambda v, got: f"Definition {ident} : bool := {'true' if v['ok'] else 'false'}."
+
+
+def render_pairs(ident):
+    """list (bytes * bytes) from rows [[hex, hex], ...]"""
+    def r(v, got):
+        return (f"Definition {ident} : list (bytes * bytes) := ["
+                + "; ".join(f"({coq_bytes(unhx(a))}, {coq_bytes(unhx(b))})" for a, b in v["rows"]) + "].")
+    return r
+
+
+def sem_rows_dict(v, got):
+    d = {}
+    for a, b in v["rows"]:
+        d.setdefault(a, b)       # first match wins
+    return d
+
+
+def render_bytes_list(ident):
+    return lambda v, got: (f"Definition {ident} : list bytes := [" + "; ".join(coq_bytes(unhx(x)) for x in v["list"]) + "].")
+
+
+def sem_set(v, got):
+    return sorted(set(v["list"]))
+
+
+# ---------------------------------------------------------------- tag.rs
+
+def st_tag_enum(src, got):
+    named, others = enum_variants(src(TAG_RS), r"pub enum Tag\s*\{", "Tag enum")
     if others != ["Other"]:
         raise TranslatorError(f"Tag enum: expected exactly one payload variant Other, found {others}")
+    return {"variants": named}
+
+
+def render_enum(typ, prefix, allname, defs):
+    """defs: which of index / ident definitions to emit, in order, as (kind, ident)."""
+    def r(v, got):
+        named = v["variants"]
+        out = [f"Inductive {typ} : Set :="]
+        out += [f"  | {prefix}{x}" for x in named]
+        out.append(".")
+        out.append(f"Definition {allname} : list {typ} := [" + "; ".join(prefix + x for x in named) + "].")
+        for kind, ident in defs:
+            var = typ[0]
+            if kind == "index":
+                out.append(f"Definition {ident} ({var} : {typ}) : nat := match {var} with")
+                out += [f"  | {prefix}{x} => {i}%nat" for i, x in enumerate(named)]
+            else:
+                out.append(f"Definition {ident} ({var} : {typ}) : bytes := match {var} with")
+                out += [f"  | {prefix}{x} => {coq_bytes(x.encode())}" for x in named]
+            out.append("  end.")
+        return "\n".join(out)
+    return r
+
+
+def sem_variants(v, got):
+    return sorted(v["variants"])
+
+
+Section("tag_enum", ["tagv", "all_tagv", "tagv_index", "tagv_ident"], st_tag_enum,
+        render_enum("tagv", "T_", "all_tagv", [("index", "tagv_index"), ("ident", "tagv_ident")]), sem_variants,
+        exact=lambda v, got: list(v["variants"]),
+        static_may_see_more=True, probe_note="variants the harness enumerates (tag_list); a variant added to the enum is seen by the static reading only")
+
+
+def st_tag_names(src, got):
+    named = need(got, "tag_enum")["variants"]
+    tag_src = src(TAG_RS)
     as_str = body_of(tag_src, r"pub\(crate\) fn as_str\(&self\) -> Cow<'static, str>\s*\{", "Tag::as_str")
     if not norm(as_str).startswith("Cow::Borrowed(matchself{"):
         raise TranslatorError("Tag::as_str: body is not Cow::Borrowed(match self {..})")
@@ -200,29 +451,48 @@ def gen(repo):
     names = dict(arms)
     if sorted(names) != sorted(named) or len(arms) != len(named):
         raise TranslatorError("Tag::as_str: arms do not cover the enum exactly once")
-    emit("Inductive tagv : Set :=")
-    for v in named:
-        emit(f"  | T_{v}")
-    emit(".")
-    emit("Definition all_tagv : list tagv := [" + "; ".join("T_" + v for v in named) + "].")
-    emit("Definition tagv_index (t : tagv) : nat := match t with")
-    for i, v in enumerate(named):
-        emit(f"  | T_{v} => {i}%nat")
-    emit("  end.")
-    emit("Definition tag_name (t : tagv) : bytes := match t with")
-    for v in named:
-        emit(f"  | T_{v} => {coq_bytes(names[v])} (* {names[v].decode()} *)")
-    emit("  end.")
-    emit("Definition tagv_ident (t : tagv) : bytes := match t with")
-    for v in named:
-        emit(f"  | T_{v} => {coq_bytes(v.encode())}")
-    emit("  end.")
+    return {"names": {v: hx(names[v]) for v in named}}
 
-    tf = body_of(tag_src, r"fn try_from\(raw: &'a str\) -> Result<Self, Self::Error>\s*\{", "Tag::try_from")
+
+def render_names(ident, typ, prefix, enum_section):
+    def r(v, got):
+        named = need(got, enum_section)["variants"]
+        var = typ[0]
+        out = [f"Definition {ident} ({var} : {typ}) : bytes := match {var} with"]
+        for x in named:
+            if x not in v["names"]:
+                raise TranslatorError(f"{ident}: no name for variant {x}")
+            bs = unhx(v["names"][x])
+            out.append(f"  | {prefix}{x} => {coq_bytes(bs)} (* {bs.decode('utf-8', 'replace')} *)")
+        out.append("  end.")
+        return "\n".join(out)
+    return r
+
+
+def sem_names(v, got):
+    return dict(v["names"])
+
+
+Section("tag_names", ["tag_name"], st_tag_names, render_names("tag_name", "tagv", "T_", "tag_enum"), sem_names,
+        needs=("tag_enum",), static_may_see_more=True, probe_note="what Argument::render writes for every variant (tag_list)")
+
+
+def st_tag_charset(src, got):
+    tf = body_of(src(TAG_RS), r"fn try_from\(raw: &'a str\) -> Result<Self, Self::Error>\s*\{", "Tag::try_from")
     m = re.search(r"if raw\.is_empty\(\)\s*\{\s*return Err\(TagError::Empty\);\s*\}\s*else if let Some\(\(pos, chr\)\) = raw\s*\.char_indices\(\)\s*\.find\(\|&\(_, ch\)\| !\((.*?)\)\)\s*\{\s*return Err\(TagError::InvalidCharacter \{ chr, pos \}\);\s*\}", tf, re.S)
     if not m:
         raise TranslatorError("Tag::try_from: validation prelude has changed shape")
-    emit(f"Definition tag_charset (c : N) : bool := {translate_pred(m.group(1), 'ch', 'Tag::try_from charset')}.")
+    return translate_pred(m.group(1), "ch", "Tag::try_from charset")
+
+
+Section("tag_charset", ["tag_charset"], st_tag_charset, render_pred("tag_charset"), sem_pred,
+        probe_note="Tag::try_from on <c>, a<c>, <c>a for every char c (no non-ASCII char accepted)")
+
+
+def st_tag_parse_table(src, got):
+    named = need(got, "tag_enum")["variants"]
+    tag_src = src(TAG_RS)
+    tf = body_of(tag_src, r"fn try_from\(raw: &'a str\) -> Result<Self, Self::Error>\s*\{", "Tag::try_from")
     mic = body_of(tf, r"match_ignore_case!\s*\{", "match_ignore_case! invocation")
     if not re.match(r"\s*raw\s*,", mic):
         raise TranslatorError("match_ignore_case!: first argument is not raw")
@@ -236,145 +506,283 @@ def gen(repo):
     if "Ok(Self::Other(raw.into()))" not in norm(tail):
         raise TranslatorError("Tag::try_from: catch-all tail has changed shape")
     mac = body_of(tag_src, r"macro_rules! match_ignore_case\s*\{", "match_ignore_case! definition")
-    pins["match_ignore_case"] = norm(mac)
     if norm(mac) != norm("""($raw:ident, $($pattern:literal => $result:expr),+) => {
         $( if $raw.eq_ignore_ascii_case($pattern) { return Ok($result); } )+ };"""):
         raise TranslatorError("match_ignore_case! definition has changed shape")
-    emit("Definition tag_parse_table : list (bytes * tagv) := [")
-    emit(";\n".join(f"  ({coq_bytes(rust_str(p))}, T_{v})" for p, v in rows))
-    emit("].")
+    return {"rows": [[hx(rust_str(p)), v] for p, v in rows]}
 
-    # shape pins for the one-line impls whose meaning the model hard-codes
-    def pin(name, src, header, expect):
-        bdy = norm(body_of(src, header, name))
-        pins[name] = bdy
-        ok = bdy == norm(expect)
-        emit(f"Definition pin_{name} : bool := {'true' if ok else 'false'}.")
-        return ok
 
-    pin("tag_eq", tag_src, r"impl PartialEq for Tag\s*\{", "fn eq(&self, other: &Tag) -> bool { self.as_str() == other.as_str() }")
-    pin("tag_cmp", tag_src, r"impl Ord for Tag\s*\{", "fn cmp(&self, other: &Self) -> std::cmp::Ordering { self.as_str().cmp(&other.as_str()) }")
-    pin("tag_partial_cmp", tag_src, r"impl PartialOrd for Tag\s*\{", "fn partial_cmp(&self, other: &Tag) -> Option<std::cmp::Ordering> { Some(self.cmp(other)) }")
-    pin("tag_hash", tag_src, r"impl Hash for Tag\s*\{", "fn hash<H: Hasher>(&self, state: &mut H) { self.as_str().hash(state); }")
-    pin("tag_argument", tag_src, r"impl Argument for Tag\s*\{", "fn render(&self, buf: &mut BytesMut) { buf.put_slice(self.as_str().as_bytes()); }")
+def render_parse_table(ident, typ, prefix, enum_section):
+    def r(v, got):
+        named = need(got, enum_section)["variants"]
+        for _, x in v["rows"]:
+            if x not in named:
+                raise TranslatorError(f"{ident}: unknown variant {x}")
+        return (f"Definition {ident} : list (bytes * {typ}) := [\n"
+                + ";\n".join(f"  ({coq_bytes(unhx(p))}, {prefix}{x})" for p, x in v["rows"]) + "\n].")
+    return r
 
-    # ------------------------------------------------------------ client/mod.rs: Subsystem
-    cm = strip_comments(read(repo, "mpd_client/src/client/mod.rs"))
-    sub_enum = body_of(cm, r"pub enum Subsystem\s*\{", "Subsystem enum")
-    svariants = re.findall(r"^\s*(\w+)\s*(\([^)]*\))?,", sub_enum, re.M)
-    snamed = [v for v, p in svariants if not p]
-    if [v for v, p in svariants if p] != ["Other"]:
+
+def sem_ci_table(v, got):
+    d = {}
+    for p, x in v["rows"]:
+        d.setdefault(unhx(p).lower().hex(), x)     # eq_ignore_ascii_case, first row wins
+    return d
+
+
+Section("tag_parse_table", ["tag_parse_table"], st_tag_parse_table,
+        render_parse_table("tag_parse_table", "tagv", "T_", "tag_enum"), sem_ci_table, needs=("tag_enum",),
+        probe_note="Tag::try_from on every string literal of tag.rs + every protocol name + MPD's tag names, each in 4 letter cases")
+
+
+def st_pin(file, header, expect, what):
+    def f(src, got):
+        return {"ok": norm(body_of(src(file), header, what)) == norm(expect)}
+    return f
+
+
+def pin_section(name, file, header, expect, probe_note=""):
+    Section("pin_" + name, ["pin_" + name], st_pin(file, header, expect, name), render_bool("pin_" + name),
+            kind="pin", probe_note=probe_note)
+
+
+TAG_PAIRS_NOTE = "probe tag_pairs: all variants x Other(name in 4 letter cases), every pair"
+pin_section("tag_eq", TAG_RS, r"impl PartialEq for Tag\s*\{", "fn eq(&self, other: &Tag) -> bool { self.as_str() == other.as_str() }", TAG_PAIRS_NOTE)
+pin_section("tag_cmp", TAG_RS, r"impl Ord for Tag\s*\{", "fn cmp(&self, other: &Self) -> std::cmp::Ordering { self.as_str().cmp(&other.as_str()) }", TAG_PAIRS_NOTE)
+pin_section("tag_partial_cmp", TAG_RS, r"impl PartialOrd for Tag\s*\{", "fn partial_cmp(&self, other: &Tag) -> Option<std::cmp::Ordering> { Some(self.cmp(other)) }", TAG_PAIRS_NOTE)
+pin_section("tag_hash", TAG_RS, r"impl Hash for Tag\s*\{", "fn hash<H: Hasher>(&self, state: &mut H) { self.as_str().hash(state); }", TAG_PAIRS_NOTE)
+pin_section("tag_argument", TAG_RS, r"impl Argument for Tag\s*\{", "fn render(&self, buf: &mut BytesMut) { buf.put_slice(self.as_str().as_bytes()); }", TAG_PAIRS_NOTE)
+
+
+# ---------------------------------------------------------------- client/mod.rs: Subsystem
+
+def st_sub_enum(src, got):
+    named, others = enum_variants(src(CLIENT_MOD_RS), r"pub enum Subsystem\s*\{", "Subsystem enum")
+    if others != ["Other"]:
         raise TranslatorError("Subsystem enum: expected exactly one payload variant Other")
-    sub_impl = body_of(cm, r"impl Subsystem\s*\{", "impl Subsystem")
+    return {"variants": named}
+
+
+Section("sub_enum", ["subv", "all_subv", "subv_ident", "subv_index"], st_sub_enum,
+        render_enum("subv", "S_", "all_subv", [("ident", "subv_ident"), ("index", "subv_index")]), sem_variants,
+        exact=lambda v, got: list(v["variants"]),
+        static_may_see_more=True, probe_note="variants the harness enumerates (sub_list)")
+
+
+def st_sub_names(src, got):
+    snamed = need(got, "sub_enum")["variants"]
+    sub_impl = body_of(src(CLIENT_MOD_RS), r"impl Subsystem\s*\{", "impl Subsystem")
     s_as = body_of(sub_impl, r"pub fn as_str\(&self\) -> &str\s*\{", "Subsystem::as_str")
     sarms, srest = match_arms(body_of(s_as, r"match self\s*\{", "Subsystem::as_str match"), "Subsystem::as_str")
-    if [(r[0], norm(r[2])) for r in srest] != [("Other", "r")]:
+    if [(r[0], norm(r[2])) for r in srest] not in ([("Other", "r")], [("Other", "raw")]):
         raise TranslatorError(f"Subsystem::as_str: unexpected arms {srest}")
     snames = dict(sarms)
     if sorted(snames) != sorted(snamed) or len(sarms) != len(snamed):
         raise TranslatorError("Subsystem::as_str: arms do not cover the enum exactly once")
-    emit("Inductive subv : Set :=")
-    for v in snamed:
-        emit(f"  | S_{v}")
-    emit(".")
-    emit("Definition all_subv : list subv := [" + "; ".join("S_" + v for v in snamed) + "].")
-    emit("Definition sub_name (s : subv) : bytes := match s with")
-    for v in snamed:
-        emit(f"  | S_{v} => {coq_bytes(snames[v])} (* {snames[v].decode()} *)")
-    emit("  end.")
-    emit("Definition subv_ident (s : subv) : bytes := match s with")
-    for v in snamed:
-        emit(f"  | S_{v} => {coq_bytes(v.encode())}")
-    emit("  end.")
-    emit("Definition subv_index (s : subv) : nat := match s with")
-    for i, v in enumerate(snamed):
-        emit(f"  | S_{v} => {i}%nat")
-    emit("  end.")
+    return {"names": {v: hx(snames[v]) for v in snamed}}
+
+
+Section("sub_names", ["sub_name"], st_sub_names, render_names("sub_name", "subv", "S_", "sub_enum"), sem_names,
+        needs=("sub_enum",), static_may_see_more=True, probe_note="Subsystem::as_str of every variant (sub_list)")
+
+
+def _sub_from_frame(src):
+    sub_impl = body_of(src(CLIENT_MOD_RS), r"impl Subsystem\s*\{", "impl Subsystem")
     ff = body_of(sub_impl, r"fn from_frame\(mut r: Frame\) -> (?:Option|Vec)<Subsystem>\s*\{", "Subsystem::from_frame")
+    return sub_impl, ff
+
+
+def st_sub_parse_table(src, got):
+    snamed = need(got, "sub_enum")["variants"]
+    sub_impl, ff = _sub_from_frame(src)
     if re.search(r"fn from_name\(raw: String\) -> Subsystem", sub_impl):
-        # repaired shape: from_frame loops over every `changed` field and maps each through from_name
-        if norm(ff) != norm("""let mut changed = Vec::new(); while let Some(raw) = r.get("changed") { changed.push(Self::from_name(raw)); } changed"""):
-            raise TranslatorError("Subsystem::from_frame: loop over the changed fields has changed shape")
         fn_body = body_of(sub_impl, r"fn from_name\(raw: String\) -> Subsystem\s*\{", "Subsystem::from_name")
         mm = re.fullmatch(r"\s*match &\*raw\s*\{(.*?)_\s*=>\s*Subsystem::Other\(raw\.into\(\)\),?\s*\}\s*", fn_body, re.S)
-        all_changed = True
     else:
         mm = re.search(r"r\.get\(\"changed\"\)\.map\(\|raw\| match &\*raw\s*\{(.*?)_\s*=>\s*Subsystem::Other\(raw\.into\(\)\),?\s*\}\)", ff, re.S)
-        all_changed = False
     if not mm:
         raise TranslatorError("Subsystem::from_frame: name match has changed shape")
     frows = lit_to_variant_arms(mm.group(1), "Subsystem::from_frame")
     for _, v in frows:
         if v not in snamed:
             raise TranslatorError(f"Subsystem::from_frame: unknown variant {v}")
-    emit("Definition sub_parse_table : list (bytes * subv) := [")
-    emit(";\n".join(f"  ({coq_bytes(p)}, S_{v})" for p, v in frows))
-    emit("].")
+    return {"rows": [[hx(p), v] for p, v in frows]}
+
+
+Section("sub_parse_table", ["sub_parse_table"], st_sub_parse_table,
+        render_parse_table("sub_parse_table", "subv", "S_", "sub_enum"), sem_rows_dict, needs=("sub_enum",),
+        probe_note="a real idle reply `changed: <name>` for every string literal of client/mod.rs + every protocol name + MPD's subsystem names")
+
+
+def st_sub_field_key(src, got):
+    _, ff = _sub_from_frame(src)
     key = re.search(r'r\.get\("((?:\\.|[^"\\])*)"\)', ff)
     if not key:
         raise TranslatorError("Subsystem::from_frame: field name not found")
-    emit(f"Definition sub_field_key : bytes := {coq_bytes(rust_str(key.group(1)))}.")
-    emit(f"Definition sub_all_changed_fields : bool := {'true' if all_changed else 'false'}.")
-    # both call sites in the run loop must iterate over the result (one event per element)
-    cc0 = strip_comments(read(repo, "mpd_client/src/client/connection.rs"))
+    return {"bytes": hx(rust_str(key.group(1)))}
+
+
+Section("sub_field_key", ["sub_field_key"], st_sub_field_key, render_bytes_const("sub_field_key"),
+        probe_note="the one key among the candidates (literals of client/mod.rs) under which an idle reply produces an event")
+
+
+def st_sub_all_changed(src, got):
+    sub_impl, ff = _sub_from_frame(src)
+    if re.search(r"fn from_name\(raw: String\) -> Subsystem", sub_impl):
+        return {"ok": norm(ff) == norm("""let mut changed = Vec::new(); while let Some(raw) = r.get("changed") { changed.push(Self::from_name(raw)); } changed""")}
+    return {"ok": False}
+
+
+Section("sub_all_changed_fields", ["sub_all_changed_fields"], st_sub_all_changed, render_bool("sub_all_changed_fields"), kind="pin",
+        probe_note="the real Client on an idle reply naming two subsystems: two events")
+
+
+def st_sub_event_sites(src, got):
+    cc0 = src(CLIENT_CONN_RS)
     n_for = len(re.findall(r"for subsystem in Subsystem::from_frame\(f\)", cc0))
     n_if = len(re.findall(r"if let Some\(subsystem\) = Subsystem::from_frame\(f\)", cc0))
-    emit(f"Definition sub_event_sites_iterate : bool := {'true' if (n_for == 2 and n_if == 0) else 'false'}.")
-    pin("sub_eq", cm, r"impl PartialEq for Subsystem\s*\{", "fn eq(&self, other: &Self) -> bool { self.as_str() == other.as_str() }")
-    pin("sub_hash", cm, r"impl Hash for Subsystem\s*\{", "fn hash<H: Hasher>(&self, state: &mut H) { self.as_str().hash(state); }")
-    m = re.search(r"error\.code == (\d+)", cm)
-    if not m:
-        raise TranslatorError("album_art: fallback error code not found")
-    emit(f"Definition album_art_fallback_code : N := {m.group(1)}.")
+    return {"ok": n_for == 2 and n_if == 0}
 
-    # ------------------------------------------------------------ parser.rs charsets
-    ps = strip_comments(read(repo, "mpd_protocol/src/parser.rs"))
-    kv = body_of(ps, r"fn key_value_field\(i: &\[u8\]\) -> IResult<&\[u8\], \(&str, &str\)>\s*\{", "key_value_field")
+
+Section("sub_event_sites_iterate", ["sub_event_sites_iterate"], st_sub_event_sites, render_bool("sub_event_sites_iterate"), kind="pin",
+        probe_note="two events for two changes, both while idling and in the reply to noidle")
+
+SUB_PAIRS_NOTE = "probe sub_pairs: all variants x Other(name in 3 letter cases), every pair"
+pin_section("sub_eq", CLIENT_MOD_RS, r"impl PartialEq for Subsystem\s*\{", "fn eq(&self, other: &Self) -> bool { self.as_str() == other.as_str() }", SUB_PAIRS_NOTE)
+pin_section("sub_hash", CLIENT_MOD_RS, r"impl Hash for Subsystem\s*\{", "fn hash<H: Hasher>(&self, state: &mut H) { self.as_str().hash(state); }", SUB_PAIRS_NOTE)
+
+
+def st_album_art_code(src, got):
+    cm = src(CLIENT_MOD_RS)
+    m = re.search(r"error\.code == (\d+)", cm)
+    if m:
+        return {"n": int(m.group(1))}
+    m = re.search(r"error\.code == ([A-Z][A-Z0-9_]*)\b", cm)
+    if m:
+        c = re.search(rf"const {m.group(1)}: u\d+ = (\d+);", cm)
+        if c:
+            return {"n": int(c.group(1))}
+    raise TranslatorError("album_art: fallback error code not found")
+
+
+Section("album_art_fallback_code", ["album_art_fallback_code"], st_album_art_code, render_n_const("album_art_fallback_code"),
+        probe_note="Client::album_art against a scripted `ACK [<code>@0] {readpicture}` for every code 0..60: the codes after which `albumart` is requested")
+
+
+# ---------------------------------------------------------------- parser.rs charsets
+
+def st_parser_key_charset(src, got):
+    kv = body_of(src(PARSER_RS), r"fn key_value_field\(i: &\[u8\]\) -> IResult<&\[u8\], \(&str, &str\)>\s*\{", "key_value_field")
     m = re.search(r"take_while1\(\|b\|\s*(.*?)\),\s*from_utf8", kv, re.S)
     if not m:
         raise TranslatorError("key_value_field: key charset not found")
-    emit(f"Definition parser_key_charset (c : N) : bool := {translate_pred(m.group(1), 'b', 'parser key charset')}.")
-    ec = body_of(ps, r"fn error_current_command\(i: &\[u8\]\) -> IResult<&\[u8\], Option<&str>>\s*\{", "error_current_command")
+    return translate_pred(m.group(1), "b", "parser key charset")
+
+
+Section("parser_key_charset", ["parser_key_charset"], st_parser_key_charset, render_pred("parser_key_charset"), sem_pred,
+        probe_note="Connection::receive on `k<b>: v\\nOK\\n` / `<b>k: v\\nOK\\n` (b<128) and on the truncated `k<b>` + EOF (all 256 bytes: waiting for more vs InvalidMessage), cross-checked on every 2-byte UTF-8 sequence")
+
+
+def st_parser_command_charset(src, got):
+    ec = body_of(src(PARSER_RS), r"fn error_current_command\(i: &\[u8\]\) -> IResult<&\[u8\], Option<&str>>\s*\{", "error_current_command")
     m = re.search(r"take_while1\(\|b\|\s*(.*?)\),\s*from_utf8", ec, re.S)
     if not m:
         raise TranslatorError("error_current_command: charset not found")
-    emit(f"Definition parser_command_charset (c : N) : bool := {translate_pred(m.group(1), 'b', 'parser command charset')}.")
+    return translate_pred(m.group(1), "b", "parser command charset")
 
-    # ------------------------------------------------------------ command.rs
-    cs = strip_comments(read(repo, "mpd_protocol/src/command.rs"))
-    m = re.search(r'const COMMAND_LIST_BEGIN: &\[u8\] = b"((?:\\.|[^"\\])*)";', cs)
-    if not m:
-        raise TranslatorError("COMMAND_LIST_BEGIN not found")
-    emit(f"Definition command_list_begin : bytes := {coq_bytes(rust_str(m.group(1)))}.")
-    m = re.search(r'const COMMAND_LIST_END: &\[u8\] = b"((?:\\.|[^"\\])*)";', cs)
-    if not m:
-        raise TranslatorError("COMMAND_LIST_END not found")
-    emit(f"Definition command_list_end : bytes := {coq_bytes(rust_str(m.group(1)))}.")
-    vc = body_of(cs, r"fn is_valid_command_char\(c: char\) -> bool\s*\{", "is_valid_command_char")
-    emit(f"Definition command_charset (c : N) : bool := {translate_pred(vc, 'c', 'is_valid_command_char')}.")
+
+Section("parser_command_charset", ["parser_command_charset"], st_parser_command_charset, render_pred("parser_command_charset"), sem_pred,
+        probe_note="Connection::receive on `ACK [1@0] {a<b>} m\\n` (b<128) and on the truncated `ACK [1@0] {a<b>` + EOF (all 256 bytes)")
+
+
+# ---------------------------------------------------------------- command.rs
+
+def st_const_bytes(file, name):
+    def f(src, got):
+        m = re.search(rf'const {name}: &\[u8\] = b"((?:\\.|[^"\\])*)";', src(file))
+        if not m:
+            raise TranslatorError(f"{name} not found")
+        return {"bytes": hx(rust_str(m.group(1)))}
+    return f
+
+
+Section("command_list_begin", ["command_list_begin"], st_const_bytes(COMMAND_RS, "COMMAND_LIST_BEGIN"), render_bytes_const("command_list_begin"),
+        probe_note="what Connection::send_list writes before the first command of a 2- and a 3-command list")
+Section("command_list_end", ["command_list_end"], st_const_bytes(COMMAND_RS, "COMMAND_LIST_END"), render_bytes_const("command_list_end"),
+        probe_note="what Connection::send_list writes after the last command")
+
+
+def st_command_charset(src, got):
+    vc = body_of(src(COMMAND_RS), r"fn is_valid_command_char\(c: char\) -> bool\s*\{", "is_valid_command_char")
+    return translate_pred(vc, "c", "is_valid_command_char")
+
+
+Section("command_charset", ["command_charset"], st_command_charset, render_pred("command_charset"), sem_pred,
+        probe_note="Command::build on a<c>, a<c>a for every char c")
+
+
+def st_command_first_charset(src, got):
+    cs = src(COMMAND_RS)
     if re.search(r"fn is_valid_first_command_char\(c: char\) -> bool", cs):
         vf = body_of(cs, r"fn is_valid_first_command_char\(c: char\) -> bool\s*\{", "is_valid_first_command_char")
-        vp = body_of(cs, r"fn validate_command_part\(command: &str\) -> Result<\(\), CommandErrorKind>\s*\{", "validate_command_part")
-        if "command.chars().next().filter(|c|!is_valid_first_command_char(*c))" not in norm(vp):
+        vp = norm(body_of(cs, r"fn validate_command_part\(command: &str\) -> Result<\(\), CommandErrorKind>\s*\{", "validate_command_part"))
+        if ("command.chars().next().filter(|c|!is_valid_first_command_char(*c))" not in vp
+                and "if!is_valid_first_command_char(first)" not in vp):
             raise TranslatorError("validate_command_part: first-character check has changed shape")
-        emit(f"Definition command_first_charset (c : N) : bool := {translate_pred(vf, 'c', 'is_valid_first_command_char')}.")
-    else:
-        emit("Definition command_first_charset (c : N) : bool := command_charset c.")
-    se = body_of(cs, r"fn should_escape\(c: char\) -> bool\s*\{", "should_escape")
-    emit(f"Definition should_escape (c : N) : bool := {translate_pred(se, 'c', 'should_escape')}.")
-    cl = body_of(cs, r"fn is_command_list_command\(command: &str\) -> bool\s*\{", "is_command_list_command")
+        return translate_pred(vf, "c", "is_valid_first_command_char")
+    c = need(got, "command_charset")
+    return {"coq": "command_charset c", "accept": list(c["accept"])}
+
+
+def sem_first_charset(v, got):
+    # observable part only: a first character outside the general class is rejected at the same position anyway
+    return sorted(set(v["accept"]) & set(need(got, "command_charset")["accept"]))
+
+
+Section("command_first_charset", ["command_first_charset"], st_command_first_charset, render_pred("command_first_charset"),
+        sem_first_charset, needs=("command_charset",), probe_note="Command::build on <c>a, <c> for every char c")
+
+
+def st_should_escape(src, got):
+    se = body_of(src(COMMAND_RS), r"fn should_escape\(c: char\) -> bool\s*\{", "should_escape")
+    return translate_pred(se, "c", "should_escape")
+
+
+Section("should_escape", ["should_escape"], st_should_escape, render_pred("should_escape"), sem_pred,
+        probe_note="escape_argument on x<c>y and <c> for every char c: is c preceded by a backslash")
+
+
+def st_command_list_prefix(src, got):
+    cl = body_of(src(COMMAND_RS), r"fn is_command_list_command\(command: &str\) -> bool\s*\{", "is_command_list_command")
     m = re.fullmatch(r'command\.starts_with\("((?:\\.|[^"\\])*)"\)', norm(cl))
-    if m:
-        emit(f"Definition command_list_prefix : bytes := {coq_bytes(rust_str(m.group(1)))}.")
-        emit("Definition command_list_test_is_prefix : bool := true.")
-    else:
+    if not m:
         raise TranslatorError("is_command_list_command: not a starts_with test any more")
-    va = body_of(cs, r"fn validate_argument\(argument: &\[u8\]\) -> Result<\(\), CommandErrorKind>\s*\{", "validate_argument")
+    return {"bytes": hx(rust_str(m.group(1))), "is_prefix": True}
+
+
+def render_command_list_prefix(v, got):
+    return (f"Definition command_list_prefix : bytes := {coq_bytes(unhx(v['bytes']))}.\n"
+            f"Definition command_list_test_is_prefix : bool := {'true' if v['is_prefix'] else 'false'}.")
+
+
+Section("command_list_prefix", ["command_list_prefix", "command_list_test_is_prefix"], st_command_list_prefix, render_command_list_prefix,
+        probe_note="Command::build on every prefix of the list delimiters, on prefix+suffix and on embedded/upper-case variants")
+
+
+def st_argument_reject(src, got):
+    va = body_of(src(COMMAND_RS), r"fn validate_argument\(argument: &\[u8\]\) -> Result<\(\), CommandErrorKind>\s*\{", "validate_argument")
     m = re.search(r"position\(\|&c\|\s*(.*?)\)\s*\{", va, re.S)
     if not m:
         raise TranslatorError("validate_argument: rejection predicate not found")
-    emit(f"Definition argument_reject (c : N) : bool := {translate_pred(m.group(1), 'c', 'validate_argument')}.")
-    ea = body_of(cs, r"pub fn escape_argument\(argument: &str\) -> Cow<'_, str>\s*\{", "escape_argument")
+    return translate_pred(m.group(1), "c", "validate_argument")
+
+
+Section("argument_reject", ["argument_reject"], st_argument_reject, render_pred("argument_reject"), sem_pred,
+        probe_note="Command::add_argument of a raw renderer emitting [x,b,y], [b], [b,y] for all 256 bytes b")
+
+
+def st_quote(src, got):
+    ea = body_of(src(COMMAND_RS), r"pub fn escape_argument\(argument: &str\) -> Cow<'_, str>\s*\{", "escape_argument")
     m = re.search(r"let needs_quotes = (.*?);", ea, re.S)
     if not m:
         raise TranslatorError("escape_argument: needs_quotes not found")
@@ -382,61 +790,113 @@ def gen(repo):
     m1 = re.fullmatch(r"argument\s*\.contains\(&\[((?:\s*'(?:\\.|[^\\'])'\s*,?)+)\]\[\.\.\]\)", nq)
     m2 = re.fullmatch(r"argument\.is_empty\(\)\s*\|\|\s*argument\s*\.bytes\(\)\s*\.any\(\|b\|\s*b\s*<=\s*(0x[0-9a-fA-F]+|b'(?:\\.|[^\\'])')\)", nq)
     if m1:
-        chars = re.findall(r"'((?:\\.|[^\\'])+)'", m1.group(1))
-        cond = " || ".join(f"(c =? {rust_str(ch)[0]})" for ch in chars)
-        emit(f"Definition quote_trigger (c : N) : bool := {cond}.")
-        emit("Definition quote_when_empty : bool := false.")
-    elif m2:
+        chars = [rust_str(ch)[0] for ch in re.findall(r"'((?:\\.|[^\\'])+)'", m1.group(1))]
+        return {"coq": " || ".join(f"(c =? {c})" for c in chars), "accept": sorted(set(chars)), "when_empty": False}
+    if m2:
         lim = m2.group(1)
         v = int(lim, 16) if lim.startswith("0x") else rust_str(lim[2:-1])[0]
-        emit(f"Definition quote_trigger (c : N) : bool := c <=? {v}.")
-        emit("Definition quote_when_empty : bool := true.")
-    else:
-        raise TranslatorError(f"escape_argument: needs_quotes has an unknown shape: {nq}")
+        return {"coq": f"c <=? {v}", "accept": list(range(0, v + 1)), "when_empty": True}
+    raise TranslatorError(f"escape_argument: needs_quotes has an unknown shape: {nq}")
 
-    # ------------------------------------------------------------ connection.rs constants
-    conn = strip_comments(read(repo, "mpd_protocol/src/connection.rs"))
-    m = re.search(r"const DEFAULT_BUFFER_CAPACITY: usize = (\d+);", conn)
+
+def render_quote(v, got):
+    body = v.get("coq") or canonical_pred(v["accept"])
+    return (f"Definition quote_trigger (c : N) : bool := {body}.\n"
+            f"Definition quote_when_empty : bool := {'true' if v['when_empty'] else 'false'}.")
+
+
+Section("quote", ["quote_trigger", "quote_when_empty"], st_quote, render_quote,
+        lambda v, got: [sorted(set(v["accept"])), bool(v["when_empty"])],
+        probe_note="escape_argument on x<c>y and <c> for every char c and on the empty string: is the result wrapped in double quotes")
+
+
+# ---------------------------------------------------------------- connection constants
+
+def st_default_buffer_capacity(src, got):
+    m = re.search(r"const DEFAULT_BUFFER_CAPACITY: usize = ([\d_]+);", src(CONNECTION_RS))
     if not m:
         raise TranslatorError("DEFAULT_BUFFER_CAPACITY not found")
-    emit(f"Definition default_buffer_capacity : N := {m.group(1)}.")
-    cc = strip_comments(read(repo, "mpd_client/src/client/connection.rs"))
-    m = re.search(r"const NEXT_COMMAND_IDLE_TIMEOUT: Duration = Duration::from_millis\((\d+)\);", cc)
+    return {"n": int(m.group(1).replace("_", ""))}
+
+
+Section("default_buffer_capacity", ["default_buffer_capacity"], st_default_buffer_capacity, render_n_const("default_buffer_capacity"),
+        probe_note="the size of the buffer the blocking Connection offers to its first read")
+
+
+def st_idle_timeout(src, got):
+    m = re.search(r"const NEXT_COMMAND_IDLE_TIMEOUT: Duration = Duration::from_millis\(([\d_]+)\);", src(CLIENT_CONN_RS))
     if not m:
         raise TranslatorError("NEXT_COMMAND_IDLE_TIMEOUT not found")
-    emit(f"Definition idle_timeout_ms : N := {m.group(1)}.")
-    for fn, nm in (("idle", "idle_word"), ("cancel_idle", "noidle_word")):
+    return {"n": int(m.group(1).replace("_", ""))}
+
+
+Section("idle_timeout_ms", ["idle_timeout_ms"], st_idle_timeout, render_n_const("idle_timeout_ms"),
+        probe_note="the real Client on a paused clock: the first millisecond after a reply at which `idle` is written again")
+
+
+def st_idle_words(src, got):
+    cc = src(CLIENT_CONN_RS)
+    out = {}
+    for fn, nm in (("idle", "idle"), ("cancel_idle", "noidle")):
         bdy = body_of(cc, rf"fn {fn}\(\) -> RawCommand\s*\{{", fn)
         m = re.fullmatch(r'RawCommand::new\("((?:\\.|[^"\\])*)"\)', norm(bdy))
         if not m:
             raise TranslatorError(f"{fn}(): not a bare RawCommand::new literal")
-        emit(f"Definition {nm} : bytes := {coq_bytes(rust_str(m.group(1)))}.")
+        out[nm] = hx(rust_str(m.group(1)))
+    return out
 
-    # ------------------------------------------------------------ filter.rs
-    fs = strip_comments(read(repo, "mpd_client/src/filter.rs"))
-    op_enum = body_of(fs, r"pub enum Operator\s*\{", "Operator enum")
+
+def render_idle_words(v, got):
+    return (f"Definition idle_word : bytes := {coq_bytes(unhx(v['idle']))}.\n"
+            f"Definition noidle_word : bytes := {coq_bytes(unhx(v['noidle']))}.")
+
+
+Section("idle_words", ["idle_word", "noidle_word"], st_idle_words, render_idle_words,
+        probe_note="what the real Client writes after the greeting and when a request arrives while it idles")
+
+
+# ---------------------------------------------------------------- filter.rs
+
+def st_operator_enum(src, got):
+    op_enum = body_of(src(FILTER_RS), r"pub enum Operator\s*\{", "Operator enum")
     ops = re.findall(r"^\s*(\w+),", op_enum, re.M)
+    if not ops:
+        raise TranslatorError("Operator enum: no variants")
+    return {"variants": ops}
+
+
+def render_operator_enum(v, got):
+    ops = v["variants"]
+    out = ["Inductive operator : Set := " + " | ".join("Op_" + o for o in ops) + ".",
+           "Definition all_operators : list operator := [" + "; ".join("Op_" + o for o in ops) + "].",
+           "Definition operator_ident (o : operator) : bytes := match o with"]
+    out += [f"  | Op_{o} => {coq_bytes(o.encode())}" for o in ops]
+    out += ["  end.", "Definition operator_index (o : operator) : nat := match o with"]
+    out += [f"  | Op_{o} => {i}%nat" for i, o in enumerate(ops)]
+    out.append("  end.")
+    return "\n".join(out)
+
+
+Section("operator_enum", ["operator", "all_operators", "operator_ident", "operator_index"], st_operator_enum, render_operator_enum,
+        sem_variants, static_may_see_more=True, probe_note="variants the harness enumerates", exact=lambda v, got: list(v["variants"]))
+
+
+def st_operator_str(src, got):
+    ops = need(got, "operator_enum")["variants"]
+    fs = src(FILTER_RS)
     op_as = body_of(body_of(fs, r"impl Operator\s*\{", "impl Operator"), r"fn as_str\(self\) -> &'static str\s*\{", "Operator::as_str")
     oarms, orest = match_arms(body_of(op_as, r"match self\s*\{", "Operator::as_str match"), "Operator::as_str")
     if orest or sorted(dict(oarms)) != sorted(ops):
         raise TranslatorError("Operator::as_str: arms do not cover the enum")
-    emit("Inductive operator : Set := " + " | ".join("Op_" + o for o in ops) + ".")
-    emit("Definition all_operators : list operator := [" + "; ".join("Op_" + o for o in ops) + "].")
-    emit("Definition operator_str (o : operator) : bytes := match o with")
-    for o, s in oarms:
-        emit(f"  | Op_{o} => {coq_bytes(s)} (* {s.decode()} *)")
-    emit("  end.")
-    emit("Definition operator_ident (o : operator) : bytes := match o with")
-    for o in ops:
-        emit(f"  | Op_{o} => {coq_bytes(o.encode())}")
-    emit("  end.")
-    emit("Definition operator_index (o : operator) : nat := match o with")
-    for i, o in enumerate(ops):
-        emit(f"  | Op_{o} => {i}%nat")
-    emit("  end.")
-    efv_raw = body_of(fs, r"fn escape_filter_value\(value: &str\) -> Cow<'_, str>\s*\{", "escape_filter_value")
-    efv = norm(efv_raw)
-    pins["escape_filter_value"] = efv
+    return {"names": {o: hx(s) for o, s in oarms}}
+
+
+Section("operator_str", ["operator_str"], st_operator_str, render_names("operator_str", "operator", "Op_", "operator_enum"), sem_names,
+        needs=("operator_enum",), static_may_see_more=True, probe_note="the rendering of Filter::new(Album, op, \"v\") for every operator")
+
+
+def st_filter_escape(src, got):
+    efv_raw = body_of(src(FILTER_RS), r"fn escape_filter_value\(value: &str\) -> Cow<'_, str>\s*\{", "escape_filter_value")
     # recognised shapes: if value.contains(<guard>) { Cow::Owned(CHAIN) } else { Cow::Borrowed(value) } | Cow::Owned(CHAIN) |
     # CHAIN.into() | Cow::from(CHAIN), with CHAIN = value.replace('c', lit)[.replace('c', lit)]* and <guard> a char literal
     # or an array of char literals.  The replacements are applied in source order (C11's model
@@ -454,7 +914,6 @@ def gen(repo):
     if norm(skeleton) not in ("ifGUARD{Cow::Owned(CHAIN)}else{Cow::Borrowed(value)}", "Cow::Owned(CHAIN)", "CHAIN.into()",
                               "Cow::from(CHAIN)"):
         raise TranslatorError("escape_filter_value has an unknown shape")
-
     guard = [rust_str(g) for g in re.findall(chr_lit, mg.group(1))] if mg else []
     repls = []
     for rm in re.finditer(r"\.replace\(" + chr_lit + r",\s*" + str_lit + r"\s*\)", mc.group(1)):
@@ -472,109 +931,253 @@ def gen(repo):
         guard = [bytes([c]) for c, _ in repls]      # no borrowed fast path: every replaced char "guards"
     if any(len(g) != 1 for g in guard) or not repls:
         raise TranslatorError("escape_filter_value: guard/replacements not understood")
-    emit("Definition filter_value_guard : list N := " + coq_bytes([g[0] for g in guard]) + ".")
-    emit("Definition filter_value_replacements : list (N * bytes) := ["
-         + "; ".join(f"({c}, {coq_bytes(l)})" for c, l in repls) + "].")
-    emit(f"Definition filter_escapes_backslash : bool := {'true' if any(c == 92 for c, _ in repls) else 'false'}.")
+    return {"guard": [g[0] for g in guard], "repls": [[c, hx(l)] for c, l in repls]}
 
-    # ------------------------------------------------------------ song.rs
-    ss = strip_comments(read(repo, "mpd_client/src/responses/song.rs"))
+
+def render_filter_escape(v, got):
+    return ("Definition filter_value_guard : list N := " + coq_bytes(v["guard"]) + ".\n"
+            "Definition filter_value_replacements : list (N * bytes) := ["
+            + "; ".join(f"({c}, {coq_bytes(unhx(l))})" for c, l in v["repls"]) + "].\n"
+            f"Definition filter_escapes_backslash : bool := {'true' if any(c == 92 for c, _ in v['repls']) else 'false'}.")
+
+
+def apply_filter_escape(v, s):
+    """The function the value denotes: guarded sequential replacement (bytes -> bytes)."""
+    if not any(c in s for c in v["guard"]):
+        return s
+    for c, l in v["repls"]:
+        s = s.replace(bytes([c]), unhx(l))
+    return s
+
+
+def filter_escape_test_strings():
+    specials = [34, 92, 39, 40, 41, 32, 120]
+    out = [bytes([a]) for a in range(1, 128) if a != 10]
+    out += [bytes([a, b]) for a in specials for b in specials]
+    out += [bytes([a, b, c]) for a in (34, 92, 120) for b in (34, 92, 120) for c in (34, 92, 120)]
+    return out
+
+
+def sem_filter_escape(v, got):
+    # extensional: the image of every 1-char string and of every short string over the special characters
+    return [apply_filter_escape(v, s).hex() for s in filter_escape_test_strings()]
+
+
+Section("filter_escape", ["filter_value_guard", "filter_value_replacements", "filter_escapes_backslash"], st_filter_escape,
+        render_filter_escape, sem_filter_escape,
+        probe_note="the rendering of Filter::tag(Album, s) for every 1-char s and every short s over the special characters, argument escaping undone")
+
+
+# ---------------------------------------------------------------- song.rs
+
+def st_start_fields(src, got):
+    ss = src(SONG_RS)
     sf = norm(body_of(ss, r"fn is_start_field\(f: &str\) -> bool\s*\{", "is_start_field"))
     m = re.fullmatch(r'matches!\(f,((?:"[^"]*"\|?)+)\)', sf)
     if not m:
         raise TranslatorError("is_start_field: not a matches! over literals")
-    sfl = re.findall(r'"([^"]*)"', m.group(1))
-    emit("Definition start_fields : list bytes := [" + "; ".join(coq_bytes(rust_str(x)) for x in sfl) + "].")
-    # handle_start_field: the key that opens a song, the keys skipped while no song is in progress,
-    # and the name reported in the unexpected-field error
-    hs = norm(body_of(ss, r"fn handle_start_field\(&mut self, key: &str, value: String\) -> Result<\(\), TypedResponseError>\s*\{", "handle_start_field"))
-    m = re.fullmatch(r'matchkey\{"([^"]*)"=>self\.url=value,((?:"[^"]*"\|?)+)=>\(\),other=>returnErr\(TypedResponseError::unexpected_field\("([^"]*)",other\)\),?\}Ok\(\(\)\)', hs)
-    if not m:
-        raise TranslatorError("handle_start_field: not the shape `match key { \"file\" => self.url = value, \"a\" | \"b\" => (), other => return Err(unexpected_field(..)) } Ok(())`")
-    emit(f"Definition song_url_key : bytes := {coq_bytes(rust_str(m.group(1)))}.")
-    emit("Definition start_skip_fields : list bytes := [" + "; ".join(coq_bytes(rust_str(x)) for x in re.findall(r'"([^"]*)"', m.group(2))) + "].")
-    emit(f"Definition start_expected_name : bytes := {coq_bytes(rust_str(m.group(3)))}.")
-    # handle_song_field: literal keys of the attribute match (everything else is a tag)
     hf = body_of(ss, r"fn handle_song_field\(\s*&mut self,\s*key: &str,\s*value: String,?\s*\) -> Result<Option<SongInQueue>, TypedResponseError>\s*\{", "handle_song_field")
     if "if is_start_field(key)" not in hf:
         raise TranslatorError("handle_song_field: the is_start_field test is gone")
+    return {"list": [hx(rust_str(x)) for x in re.findall(r'"([^"]*)"', m.group(1))]}
+
+
+Section("start_fields", ["start_fields"], st_start_fields, render_bytes_list("start_fields"), sem_set,
+        probe_note="song listings `file: a / <K>: zz / Title: t` decoded for every candidate key K (literals of song.rs): does K end the entry")
+
+
+def st_song_start(src, got):
+    hs = norm(body_of(src(SONG_RS), r"fn handle_start_field\(&mut self, key: &str, value: String\) -> Result<\(\), TypedResponseError>\s*\{", "handle_start_field"))
+    m = re.fullmatch(r'matchkey\{"([^"]*)"=>self\.url=value,((?:"[^"]*"\|?)+)=>\(\),other=>returnErr\(TypedResponseError::unexpected_field\("([^"]*)",other\)\),?\}Ok\(\(\)\)', hs)
+    if not m:
+        raise TranslatorError("handle_start_field: not the shape `match key { \"file\" => self.url = value, \"a\" | \"b\" => (), other => return Err(unexpected_field(..)) } Ok(())`")
+    return {"url_key": hx(rust_str(m.group(1))), "skip": [hx(rust_str(x)) for x in re.findall(r'"([^"]*)"', m.group(2))],
+            "expected": hx(rust_str(m.group(3)))}
+
+
+def render_song_start(v, got):
+    return (f"Definition song_url_key : bytes := {coq_bytes(unhx(v['url_key']))}.\n"
+            "Definition start_skip_fields : list bytes := [" + "; ".join(coq_bytes(unhx(x)) for x in v["skip"]) + "].\n"
+            f"Definition start_expected_name : bytes := {coq_bytes(unhx(v['expected']))}.")
+
+
+Section("song_start", ["song_url_key", "start_skip_fields", "start_expected_name"], st_song_start, render_song_start,
+        lambda v, got: [v["url_key"], sorted(set(v["skip"])), v["expected"]],
+        probe_note="song listings `<K>: v` decoded for every candidate key K: opens a song / skipped / unexpected-field error (and the name it reports)")
+
+
+def st_song_attr_keys(src, got):
+    hf = body_of(src(SONG_RS), r"fn handle_song_field\(\s*&mut self,\s*key: &str,\s*value: String,?\s*\) -> Result<Option<SongInQueue>, TypedResponseError>\s*\{", "handle_song_field")
     mk = body_of(hf, r"match key\s*\{", "handle_song_field match")
     akeys = re.findall(r'^\s*"([^"]*)"\s*=>', mk, re.M)
     if not akeys or not re.search(r"^\s*tag\s*=>", mk, re.M) or re.search(r'"\s*\|\s*"', mk):
         raise TranslatorError("handle_song_field: attribute match has changed shape")
-    emit("Definition song_attr_keys : list bytes := [" + "; ".join(coq_bytes(rust_str(x)) for x in akeys) + "].")
+    return {"list": [hx(rust_str(x)) for x in akeys]}
 
-    # ------------------------------------------------------------ responses/mod.rs enum spellings
-    rs = strip_comments(read(repo, "mpd_client/src/responses/mod.rs"))
 
-    def from_value_table(ty, what):
-        bdy = body_of(rs, rf"impl FromFieldValue for {ty}\s*\{{", what)
+Section("song_attr_keys", ["song_attr_keys"], st_song_attr_keys, render_bytes_list("song_attr_keys"), sem_set,
+        probe_note="song listings `file: a / <K>: zz` for every candidate key K: stored as a tag or treated as an attribute")
+
+
+# ---------------------------------------------------------------- responses/mod.rs enum spellings
+
+def st_from_value_table(ty):
+    def f(src, got):
+        what = f"FromFieldValue for {ty}"
+        bdy = body_of(src(RESPONSES_RS), rf"impl FromFieldValue for {ty}\s*\{{", what)
         mm = re.search(r"match &\*v\s*\{(.*?)_\s*=>\s*Err\(TypedResponseError::invalid_value\(field, v\)\),?\s*\}", bdy, re.S)
         if not mm:
             raise TranslatorError(f"{what}: match has changed shape")
-        return lit_to_variant_arms(mm.group(1), what)
+        return {"rows": [[hx(p), hx(v.encode())] for p, v in lit_to_variant_arms(mm.group(1), what)]}
+    return f
 
-    for ty, nm in (("bool", "bool_spellings"), ("PlayState", "playstate_spellings"), ("ReplayGainMode", "replaygain_spellings")):
-        rows = from_value_table(ty, f"FromFieldValue for {ty}")
-        emit(f"Definition {nm} : list (bytes * bytes) := [" + "; ".join(f"({coq_bytes(p)}, {coq_bytes(v.encode())})" for p, v in rows) + "].")
-    stf = body_of(rs, r"impl Status\s*\{", "impl Status")
-    mm = re.search(r"match val\.as_str\(\)\s*\{(.*?)_\s*=>", stf, re.S)
+
+for _ty, _nm, _note in (("bool", "bool_spellings", "a status reply with `repeat: <s>`"),
+                        ("PlayState", "playstate_spellings", "a status reply with `state: <s>`"),
+                        ("ReplayGainMode", "replaygain_spellings", "a replay_gain_status reply with `replay_gain_mode: <s>`")):
+    Section(_nm, [_nm], st_from_value_table(_ty), render_pairs(_nm), sem_rows_dict,
+            probe_note=_note + " decoded for every candidate spelling s (literals of responses/mod.rs, variant names, a generous list)")
+
+
+def _status_impl(src):
+    return body_of(src(RESPONSES_RS), r"impl Status\s*\{", "impl Status")
+
+
+def st_single_spellings(src, got):
+    mm = re.search(r"match val\.as_str\(\)\s*\{(.*?)_\s*=>", _status_impl(src), re.S)
     if not mm:
         raise TranslatorError("Status::from_frame: single match not found")
-    rows = lit_to_variant_arms(mm.group(1), "Status single")
-    emit("Definition single_spellings : list (bytes * bytes) := [" + "; ".join(f"({coq_bytes(p)}, {coq_bytes(v.encode())})" for p, v in rows) + "].")
-    # status field names read by Status::from_frame, in source order
+    return {"rows": [[hx(p), hx(v.encode())] for p, v in lit_to_variant_arms(mm.group(1), "Status single")]}
+
+
+Section("single_spellings", ["single_spellings"], st_single_spellings, render_pairs("single_spellings"), sem_rows_dict,
+        probe_note="a status reply with `single: <s>` decoded for every candidate spelling s")
+
+
+def st_status_fields(src, got):
+    stf = _status_impl(src)
     sfields = re.findall(r'(?:optional_value|value|song_identifier|get)\(\s*(?:f,\s*)?((?:"[^"]*"(?:,\s*)?)+)\)', stf)
     flat = []
     for grp in sfields:
         flat += re.findall(r'"([^"]*)"', grp)
-    emit("Definition status_fields_read : list bytes := [" + "; ".join(coq_bytes(rust_str(x)) for x in flat) + "].")
+    if not flat:
+        raise TranslatorError("Status::from_frame: no field reads found")
+    return {"list": [hx(rust_str(x)) for x in flat]}
 
-    # ------------------------------------------------------------ definitions.rs
-    ds = strip_comments(read(repo, "mpd_client/src/commands/definitions.rs"))
-    ds_nontest = ds.split("#[cfg(test)]")[0]
-    words = sorted(set(re.findall(r'RawCommand::new\("((?:\\.|[^"\\])*)"\)', ds_nontest)) |
-                   set(re.findall(r'(?:argless_command|single_arg_command)!\(\s*[\w<>\']+,\s*(?:[&\w\' ]+,\s*)?"((?:\\.|[^"\\])*)"\)', ds_nontest)))
-    emit("Definition predefined_command_words : list bytes := [")
-    emit(";\n".join(f"  {coq_bytes(rust_str(w))} (* {w} *)" for w in words))
-    emit("].")
-    m = (re.search(r"let volume = (?:std::cmp::|cmp::)?min\(self\.0, (\d+)\);", ds_nontest)
-         or re.search(r"let volume = self\.0\.min\((\d+)\);", ds_nontest))
-    if not m:
-        raise TranslatorError("SetVolume: clamp not found")
-    emit(f"Definition volume_max : N := {m.group(1)}.")
-    for ty, nm in (("SetSingle", "single_render"), ("SetReplayGainMode", "replaygain_render")):
-        bdy = body_of(ds_nontest, rf"impl Command for {ty}\s*\{{", ty)
+
+Section("status_fields_read", ["status_fields_read"], st_status_fields, render_bytes_list("status_fields_read"), sem_set,
+        exact=lambda v, got: list(v["list"]),       # the order of the reads decides which error wins: only the static reading sees it
+        probe_note="(as a set) the candidate keys whose presence with a junk value changes the decoding of a full status reply")
+
+
+# ---------------------------------------------------------------- definitions.rs
+
+def _defs(src):
+    return src(DEFINITIONS_RS).split("#[cfg(test)]")[0]
+
+
+def st_predefined_words(src, got):
+    ds = _defs(src)
+    words = sorted(set(re.findall(r'RawCommand::new\("((?:\\.|[^"\\])*)"\)', ds)) |
+                   set(re.findall(r'(?:argless_command|single_arg_command)!\(\s*[\w<>\']+,\s*(?:[&\w\' ]+,\s*)?"((?:\\.|[^"\\])*)"\)', ds)))
+    if not words:
+        raise TranslatorError("definitions.rs: no command words found")
+    return {"list": [hx(rust_str(w)) for w in words]}
+
+
+def render_predefined_words(v, got):
+    ws = [unhx(w) for w in v["list"]]
+    return ("Definition predefined_command_words : list bytes := [\n"
+            + ";\n".join(f"  {coq_bytes(w)} (* {w.decode('utf-8', 'replace')} *)" for w in ws) + "\n].")
+
+
+Section("predefined_command_words", ["predefined_command_words"], st_predefined_words, render_predefined_words, sem_set,
+        static_may_see_more=True, probe_note="the first word of the rendering of every constructor path of every predefined command the harness knows")
+
+
+def st_volume_max(src, got):
+    ds = _defs(src)
+    m = (re.search(r"let volume = (?:std::cmp::|cmp::)?min\(self\.0, (\d+)\);", ds)
+         or re.search(r"let volume = self\.0\.min\((\d+)\);", ds))
+    if m:
+        return {"n": int(m.group(1))}
+    m = re.search(r"self\.0\.min\(([A-Z][A-Z0-9_]*)\)|min\(self\.0, ([A-Z][A-Z0-9_]*)\)", ds)
+    if m:
+        c = re.search(rf"const {m.group(1) or m.group(2)}: u8 = (\d+);", ds)
+        if c:
+            return {"n": int(c.group(1))}
+    raise TranslatorError("SetVolume: clamp not found")
+
+
+Section("volume_max", ["volume_max"], st_volume_max, render_n_const("volume_max"),
+        probe_note="the rendering of SetVolume(n) for all 256 values of n: setvol min(n, max)")
+
+
+def st_enum_render(ty):
+    def f(src, got):
+        bdy = body_of(_defs(src), rf"impl Command for {ty}\s*\{{", ty)
         mm = re.search(r"match self\.0\s*\{(.*?)\};", bdy, re.S)
         if not mm:
             raise TranslatorError(f"{ty}: match not found")
         arms2, rest2 = match_arms(mm.group(1), ty)
         if rest2:
             raise TranslatorError(f"{ty}: unexpected arms")
-        emit(f"Definition {nm} : list (bytes * bytes) := [" + "; ".join(f"({coq_bytes(v.encode())}, {coq_bytes(s)})" for v, s in arms2) + "].")
-    # C15 shape pins: the renderers whose meaning CommandsModel.v hard-codes
-    dur_arg = norm(body_of(cs, r"impl Argument for Duration\s*\{", "Argument for Duration"))
-    pins["duration_argument"] = dur_arg
-    dur_ok = 'write!(buf,"{:.3}",self.as_secs_f64()).unwrap();' in dur_arg
-    emit(f"Definition pin_duration_argument : bool := {'true' if dur_ok else 'false'}.")
-    seek_body = norm(body_of(ds_nontest, r"impl Command for Seek\s*\{", "Command for Seek"))
-    pins["seek_command"] = seek_body
-    seek_ok = all(x in seek_body for x in (
-        'SeekMode::Absolute(pos)=>format!("{:.3}",pos.as_secs_f64())',
-        'SeekMode::Forward(time)=>format!("+{:.3}",time.as_secs_f64())',
-        'SeekMode::Backward(time)=>format!("-{:.3}",time.as_secs_f64())'))
-    emit(f"Definition pin_seek_format : bool := {'true' if seek_ok else 'false'}.")
-    rng_arg = norm(body_of(ds_nontest, r"impl Argument for SongRange\s*\{", "Argument for SongRange"))
-    pins["songrange_argument"] = rng_arg
-    rng_ok = 'write!(buf,"{}:{}",self.from,to).unwrap();' in rng_arg and 'write!(buf,"{}:",self.from).unwrap();' in rng_arg
-    emit(f"Definition pin_songrange_argument : bool := {'true' if rng_ok else 'false'}.")
-    sat = norm(body_of(ds_nontest, r"fn new_usize<R: RangeBounds<usize>>\(range: R\) -> Self\s*\{", "SongRange::new_usize"))
-    pins["songrange_new_usize"] = sat
-    emit(f"Definition range_saturating : bool := {'true' if sat.count('saturating_add(1)') == 2 and 'pos+1' not in sat and 'wrapping' not in sat else 'false'}.")
+        return {"rows": [[hx(v.encode()), hx(s)] for v, s in arms2]}
+    return f
 
-    # ------------------------------------------------------------ command_list.rs tuple impls
-    cls = strip_comments(read(repo, "mpd_client/src/commands/command_list.rs"))
-    invs = re.findall(r"^impl_command_list_tuple!\((.*?)\);", cls, re.M)
+
+Section("single_render", ["single_render"], st_enum_render("SetSingle"), render_pairs("single_render"), sem_rows_dict,
+        probe_note="the rendering of SetSingle(mode) for every mode")
+Section("replaygain_render", ["replaygain_render"], st_enum_render("SetReplayGainMode"), render_pairs("replaygain_render"), sem_rows_dict,
+        probe_note="the rendering of SetReplayGainMode(mode) for every mode")
+
+
+def st_pin_contains(file_fn, header, needles, what):
+    def f(src, got):
+        bdy = norm(body_of(file_fn(src), header, what))
+        return {"ok": all(x in bdy for x in needles)}
+    return f
+
+
+NO_FINITE = ("no finite complete universe (durations / positions): a tripwire only; the behaviour is decided on every run by "
+             "C15's correspondence (edge sweeps and 1500 / 600 random durations / ranges per quick run) and its oracle")
+
+
+def render_tripwire(name):
+    return lambda v, got: f"(* tripwire {name}: {'the source has the pinned shape' if v['ok'] else 'TRIPPED (the source no longer has the pinned shape)'} *)"
+
+
+def tripwire(name, static, decided_by, note):
+    Section(name, [], static, render_tripwire(name), kind="tripwire", decided_by=decided_by, probe_note=note)
+
+
+tripwire("pin_duration_argument",
+         st_pin_contains(lambda s: s(COMMAND_RS), r"impl Argument for Duration\s*\{", ['write!(buf,"{:.3}",self.as_secs_f64()).unwrap();'], "Argument for Duration"),
+         ("C15",), NO_FINITE)
+tripwire("pin_seek_format",
+         st_pin_contains(_defs, r"impl Command for Seek\s*\{", [
+             'SeekMode::Absolute(pos)=>format!("{:.3}",pos.as_secs_f64())',
+             'SeekMode::Forward(time)=>format!("+{:.3}",time.as_secs_f64())',
+             'SeekMode::Backward(time)=>format!("-{:.3}",time.as_secs_f64())'], "Command for Seek"),
+         ("C15",), NO_FINITE)
+tripwire("pin_songrange_argument",
+         st_pin_contains(_defs, r"impl Argument for SongRange\s*\{", ['write!(buf,"{}:{}",self.from,to).unwrap();', 'write!(buf,"{}:",self.from).unwrap();'], "Argument for SongRange"),
+         ("C15",), NO_FINITE)
+
+
+def st_range_saturating(src, got):
+    sat = norm(body_of(_defs(src), r"fn new_usize<R: RangeBounds<usize>>\(range: R\) -> Self\s*\{", "SongRange::new_usize"))
+    return {"ok": sat.count("saturating_add(1)") == 2 and "pos+1" not in sat and "wrapping" not in sat}
+
+
+Section("range_saturating", ["range_saturating"], st_range_saturating, render_bool("range_saturating"), kind="pin",
+        probe_note="the two ranges that touch usize::MAX (excluded start, included end) render saturated, without panic (overflow checks on)")
+
+
+# ---------------------------------------------------------------- command_list.rs tuple impls
+
+def st_tuple_impls(src, got):
+    invs = re.findall(r"^impl_command_list_tuple!\((.*?)\);", src(COMMAND_LIST_RS), re.M)
     if not invs:
         raise TranslatorError("impl_command_list_tuple!: no invocations")
     lists = []
@@ -587,42 +1190,261 @@ def gen(repo):
                 raise TranslatorError(f"impl_command_list_tuple!: cannot read {p!r}")
             idxs.append(int(mm.group(1)))
         lists.append(idxs)
-    emit("Definition tuple_impls : list (list nat) := [" + "; ".join("[" + "; ".join(f"{i}%nat" for i in l) + "]" for l in lists) + "].")
-    mac = norm(body_of(cls, r"macro_rules! impl_command_list_tuple\s*\{", "impl_command_list_tuple! definition"))
-    pins["impl_command_list_tuple"] = mac
-    uses_same_idx = ("commands.add(self.$further_idx.command());" in mac) and (
-        "self.$further_idx.response(" in mac)
-    emit(f"Definition tuple_macro_uses_index_for_both : bool := {'true' if uses_same_idx else 'false'}.")
+    return {"lists": lists}
 
-    # ------------------------------------------------------------ frame.rs shape pins
-    fr = strip_comments(read(repo, "mpd_protocol/src/response/frame.rs"))
-    impl_frame = body_of(fr, r"impl Frame\s*\{", "impl Frame")
+
+def render_tuple_impls(v, got):
+    return ("Definition tuple_impls : list (list nat) := ["
+            + "; ".join("[" + "; ".join(f"{i}%nat" for i in l) + "]" for l in v["lists"]) + "].")
+
+
+Section("tuple_impls", ["tuple_impls"], st_tuple_impls, render_tuple_impls, lambda v, got: sorted(v["lists"]),
+        exact=lambda v, got: list(v["lists"]),
+        static_may_see_more=True, probe_note="typed tuples of arity 1..8 over commands with mutually undecodable replies: which command decodes which frame into which position")
+
+
+def st_tuple_macro(src, got):
+    mac = norm(body_of(src(COMMAND_LIST_RS), r"macro_rules! impl_command_list_tuple\s*\{", "impl_command_list_tuple! definition"))
+    return {"ok": ("commands.add(self.$further_idx.command());" in mac) and ("self.$further_idx.response(" in mac)}
+
+
+tripwire("tuple_macro_uses_index_for_both", st_tuple_macro, ("C13", "C12"),
+         "a reading of the macro body; what it stands for is probed by section tuple_impls and decided by C13's / C12's typed-list correspondence")
+
+
+# ---------------------------------------------------------------- frame.rs shape pin
+
+def st_pin_frame_find(src, got):
+    impl_frame = body_of(src(FRAME_RS), r"impl Frame\s*\{", "impl Frame")
     find_b = norm(body_of(impl_frame, r"pub fn find<K>\(&self, key: K\) -> Option<&str>\s*where\s*K: AsRef<str>,\s*\{", "Frame::find"))
-    pins["frame_find"] = find_b
-    emit(f"Definition pin_frame_find : bool := {'true' if find_b == norm('self.fields().find_map(|(k, v)| if k == key.as_ref() { Some(v) } else { None })') else 'false'}.")
+    return {"ok": find_b == norm('self.fields().find_map(|(k, v)| if k == key.as_ref() { Some(v) } else { None })')}
 
+
+tripwire("pin_frame_find", st_pin_frame_find, ("C19",),
+         "frames over arbitrary keys: no finite complete universe; decided by C19's correspondence (find/get on every generated frame) and its multimap oracle")
+
+
+SECTION_BY_NAME = {s.name: s for s in SECTIONS}
+
+
+def section_ids():
+    return {s.name: list(s.ids) for s in SECTIONS}
+
+
+# ================================================================= driver
+
+def canon(x):
+    return json.dumps(x, sort_keys=True)
+
+
+def readings_agree(s, st, pr):
+    if canon(st) == canon(pr):
+        return True
+    if not s.static_may_see_more:
+        return False
+    if isinstance(st, dict) and isinstance(pr, dict):
+        return all(k in st and canon(st[k]) == canon(v) for k, v in pr.items())
+    if isinstance(st, list) and isinstance(pr, list):
+        have = {canon(x) for x in st}
+        return all(canon(x) in have for x in pr)
+    return False
+
+
+def gen(repo, probe=None, fallback=None):
+    """Returns (text, info).  probe: {section: {"value": v} | {"error": msg, "kind": "inconsistent"|"unavailable"}}."""
+    src = Src(repo)
+    probe = probe or {}
+    fallback = fallback or {}
+    got = {}            # section -> value used for rendering
+    how = {}            # section -> provenance
+    failed = {}         # section -> reason
+    tripped = {}        # tripwire -> who decides
+    texts = {}
+    values = {}
+    for s in SECTIONS:
+        st_val = st_err = None
+        try:
+            st_val = s.static(src, got)
+        except TranslatorError as e:
+            st_err = str(e)
+        except (KeyError, IndexError, ValueError) as e:
+            st_err = f"{type(e).__name__}: {e}"
+        pr = probe.get(s.name) or {}
+        pr_val = pr.get("value")
+        pr_err = pr.get("error")
+        pr_inconsistent = pr.get("kind") == "inconsistent"
+        use = None
+        if s.kind == "tripwire":
+            use = st_val if st_val is not None else {"ok": False}
+            how[s.name] = "static"
+            if not use["ok"]:
+                tripped[s.name] = {"decided_by": list(s.decided_by), "why": st_err or "the body no longer matches the recorded normal form"}
+        elif s.kind == "flag":
+            if st_val is not None:
+                use, how[s.name] = st_val, "static"
+            else:
+                failed[s.name] = f"static: {st_err}"
+        elif s.kind == "pin":
+            if pr_val is not None:
+                if st_val is not None and st_val["ok"] and not pr_val["ok"]:
+                    use, how[s.name] = {"ok": False}, "disagree"
+                    failed[s.name] = f"the source has the pinned shape but the probe contradicts it: {pr.get('detail', '')}"
+                elif st_val is not None and st_val["ok"] == pr_val["ok"]:
+                    use, how[s.name] = pr_val, "static+probe-agree"
+                else:
+                    use, how[s.name] = pr_val, "probe"
+            elif st_val is not None:
+                use, how[s.name] = st_val, "static"
+            else:
+                failed[s.name] = f"static: {st_err}; probe: {pr_err or 'not available'}"
+        else:
+            try:
+                if st_val is not None and pr_val is not None:
+                    got_tmp = dict(got)
+                    if readings_agree(s, s.sem(st_val, got_tmp), s.sem(pr_val, got_tmp)):
+                        use, how[s.name] = st_val, "static+probe-agree"
+                    else:
+                        use, how[s.name] = st_val, "disagree"
+                        failed[s.name] = ("static reading and probed behaviour disagree: static "
+                                          + canon(s.sem(st_val, got_tmp))[:300] + " probe " + canon(s.sem(pr_val, got_tmp))[:300])
+                elif st_val is not None:
+                    use, how[s.name] = st_val, "static"
+                    if pr_inconsistent:
+                        how[s.name] = "disagree"
+                        failed[s.name] = f"the probed behaviour does not fit the form the static reading assumes: {pr_err}"
+                elif pr_val is not None:
+                    use, how[s.name] = pr_val, "probe"
+                else:
+                    failed[s.name] = f"static: {st_err}; probe: {pr_err or 'not available'}"
+            except TranslatorError as e:
+                use = None
+                failed[s.name] = f"comparison failed: {e}"
+        text = None
+        if use is not None:
+            try:
+                ref = fallback.get(s.name)
+                same = (s.sem if how[s.name] == "probe" else s.exact)
+                if ref is not None and s.kind == "value" and canon(same(use, got)) == canon(same(ref["value"], got)):
+                    # same meaning as the reference rendering: keep its text (identical Tables.v, no rebuild)
+                    use = ref["value"]
+                text = s.render(use, dict(got, **{s.name: use}))
+            except TranslatorError as e:
+                failed[s.name] = f"render: {e}"
+                text = None
+        if text is None:
+            ref = fallback.get(s.name)
+            how[s.name] = "fallback"
+            if ref is None:
+                raise TranslatorError(f"section {s.name} could not be obtained ({failed.get(s.name)}) and no fallback value is recorded")
+            use = ref["value"]
+            text = ref["text"]
+        got[s.name] = use
+        values[s.name] = use
+        texts[s.name] = text
+    out = ["(* Tables.v — GENERATED by tools/gen_tables.py from the repository's current working tree.",
+           "   Do not edit: it is rewritten on every run of every check.  Each section says how it was obtained:",
+           "   static = read from the source text; probe = derived from the behaviour of the compiled code",
+           "   (tools/probe.py); static+probe-agree = both, equal; disagree / FALLBACK = broken tie for the",
+           "   properties that depend on the section. *)",
+           "From MPD Require Import Bytes.",
+           "Open Scope N_scope.",
+           ""]
+    for s in SECTIONS:
+        h = how[s.name]
+        if h == "fallback":
+            out.append(f"(* FALLBACK: section {s.name} could not be obtained; last good value from tools/tables_fallback.json. "
+                       f"{_comment_safe(failed.get(s.name, ''))} *)")
+        elif h == "disagree":
+            out.append(f"(* section {s.name}: DISAGREE (static reading emitted). {_comment_safe(failed.get(s.name, ''))} *)")
+        elif s.kind != "tripwire":
+            out.append(f"(* section {s.name}: {h} *)")
+        out.append(texts[s.name])
     text = "\n".join(out) + "\n"
-    return text, pins
+    info = {"sections": how, "failed": failed, "tripped": tripped, "values": values, "texts": texts}
+    return text, info
+
+
+def _comment_safe(s):
+    return s.replace("(*", "( *").replace("*)", "* )").replace("\n", " ")[:400]
+
+
+def code_only(text):
+    """Tables.v without comments and blank lines: what the compiled .vo depends on."""
+    out = []
+    depth = 0
+    i = 0
+    while i < len(text):
+        if text.startswith("(*", i):
+            depth += 1
+            i += 2
+        elif text.startswith("*)", i) and depth > 0:
+            depth -= 1
+            i += 2
+        else:
+            if depth == 0:
+                out.append(text[i])
+            i += 1
+    return "\n".join(l.rstrip() for l in "".join(out).split("\n") if l.strip())
 
 
 def main():
-    repo, outp = sys.argv[1], sys.argv[2]
+    args = sys.argv[1:]
+    if len(args) < 2:
+        print(__doc__)
+        sys.exit(2)
+    repo, outp = args[0], args[1]
+    probe_path = fallback_path = write_fallback = None
+    i = 2
+    while i < len(args):
+        if args[i] == "--probe":
+            probe_path = args[i + 1]
+        elif args[i] == "--fallback":
+            fallback_path = args[i + 1]
+        elif args[i] == "--write-fallback":
+            write_fallback = args[i + 1]
+        else:
+            print("unknown argument", args[i])
+            sys.exit(2)
+        i += 2
+    probe = None
+    if probe_path:
+        try:
+            probe = json.load(open(probe_path)).get("sections", {})
+        except (OSError, ValueError) as e:
+            probe = None
+            print(f"note: probe file unreadable: {e}", file=sys.stderr)
+    fallback = {}
+    fp = fallback_path or DEFAULT_FALLBACK
+    if os.path.exists(fp) and not write_fallback:
+        fallback = json.load(open(fp))["sections"]
     try:
-        text, pins = gen(repo)
+        text, info = gen(repo, probe, fallback)
     except TranslatorError as e:
         print(f"TRANSLATOR-ERROR: {e}")
         sys.exit(3)
-    except FileNotFoundError as e:
-        print(f"TRANSLATOR-ERROR: {e}")
-        sys.exit(3)
+    if write_fallback:
+        if info["failed"]:
+            print("refusing to write a fallback file from a run with failed sections: " + json.dumps(info["failed"]))
+            sys.exit(3)
+        with open(write_fallback, "w") as f:
+            json.dump({"note": "last good value of every Tables.v section, generated by `gen_tables.py /repo <out> --write-fallback` "
+                               "from the unchanged repository; used only to keep Tables.v complete when a section cannot be obtained",
+                       "sections": {s.name: {"value": info["values"][s.name], "text": info["texts"][s.name]} for s in SECTIONS}},
+                      f, indent=1, sort_keys=True)
     try:
         old = open(outp, encoding="utf-8").read()
     except FileNotFoundError:
         old = None
+    code_changed = old is None or code_only(old) != code_only(text)
     if old != text:
+        st = os.stat(outp) if old is not None else None
         with open(outp, "w", encoding="utf-8") as f:
             f.write(text)
-    print(json.dumps({"sha256": hashlib.sha256(text.encode()).hexdigest(), "changed": old != text}))
+        if not code_changed and st is not None:
+            # only comments (provenance) changed: the compiled Tables.vo still corresponds; keep make quiet
+            os.utime(outp, ns=(st.st_atime_ns, st.st_mtime_ns))
+    print(json.dumps({"sha256": hashlib.sha256(text.encode()).hexdigest(), "changed": old != text, "code_changed": code_changed,
+                      "sections": info["sections"], "failed": info["failed"], "tripped": info["tripped"]}))
 
 
 if __name__ == "__main__":
